@@ -80,7 +80,9 @@ type Subscriber struct {
 	closeOnce sync.Once
 	// watchDone signals that the watch function exited.
 	watchDone chan struct{}
-	asyncWG   sync.WaitGroup
+	// distDone signals that the distributeEvents function exited.
+	distDone chan struct{}
+	asyncWG  sync.WaitGroup
 
 	ipniSync *ipnisync.Sync
 
@@ -205,8 +207,9 @@ func NewSubscriber(host host.Host, lsys ipld.LinkSystem, options ...Option) (*Su
 	s := &Subscriber{
 		host: host,
 
-		addrTTL: opts.addrTTL,
-		closing: make(chan struct{}),
+		addrTTL:  opts.addrTTL,
+		closing:  make(chan struct{}),
+		distDone: make(chan struct{}),
 
 		handlers: make(map[peer.ID]*handler),
 		inEvents: make(chan SyncFinished, 1),
@@ -334,9 +337,11 @@ func (s *Subscriber) doClose() error {
 	s.asyncWG.Wait()
 	verifYield("c.asyncdone", "", cid.Undef)
 
-	// Stop the distribution goroutine.
+	// Stop the distribution goroutine, and wait for it to deliver any events
+	// that are still queued and to close the event channels.
 	close(s.inEvents)
 	verifYield("c.inclosed", "", cid.Undef)
+	<-s.distDone
 
 	s.httpPeerstore.Close()
 
@@ -621,6 +626,8 @@ func removeIDFromAddrs(peerInfo peer.AddrInfo) (peer.AddrInfo, error) {
 // the even to all channels in outEventsChans. This delivers the SyncFinished
 // to all OnSyncFinished channel readers.
 func (s *Subscriber) distributeEvents() {
+	defer close(s.distDone)
+
 	var outEventsChans []chan<- SyncFinished
 
 	for {
